@@ -3,6 +3,10 @@
                       queries in enumeration order, objects key-sorted (serde_json object
                       equality ignores key order).
    stream `mset`    : M line = MS.to_vec on a family of integer sets (MultiSet used directly).
+   stream `gridbig` : large products judged by count and digest: S line = the number of queries
+                      demanded by the count theorem (grid_count: the product of the field lengths,
+                      computed here) followed by the order-independent digest of the expected
+                      queries that the harness computed by enumerating the product itself.
    stream `gridset` : S line = the specification (Cartesian product built directly, GS.spec)
                       as a SORTED list of canonical query texts, so that the comparison with the
                       implementation is a multiset comparison: "one for each combination and
@@ -55,6 +59,10 @@ Definition line_model (id : Z) (chain : list rstage) (q : json) : string :=
 (* MultiSet::from(&sets).into_iter().collect() on integer sets *)
 Definition line_mset (id : Z) (sets : list (list Z)) : string :=
   line "M" id (show_res (show_list (show_list show_Z)) (MS.to_vec sets)).
+
+(* count (Coq: n1 x ... x nm) + digest (harness-side specification) of a large expansion *)
+Definition line_big (id : Z) (lens : list nat) (sum xor : Z) : string :=
+  line "S" id ("Ok n=" ++ show_nat (MS.size lens) ++ " sum=" ++ show_Z sum ++ " xor=" ++ show_Z xor).
 
 Definition sorted_texts (l : list (GS.value float)) : string :=
   show_list (fun s => s) (StringSort.sort (map (fun v => show_sorted (to_json v)) l)).
